@@ -41,6 +41,9 @@ def instances(tier, seed):
     add("atoms:H->F:M3:fraction", pattern='H->F', N=4, M=3, fraction='sym', cost=30)
     add("atoms:CH->CF:M2:fraction", pattern='CH->CF', N=5, M=2, fraction='sym', cost=40)
     add("atoms:CH->nothing:M2:fraction", pattern='CH->nothing', N=4, M=2, fraction='sym', cost=20)
+    # the fraction given as a whole number (1 = all, 0 = none) means the same as 1.0 / 0.0
+    add("atoms:H->F:M3:fraction-integer-1", pattern='H->F', N=4, M=3, fraction=1, cost=10)
+    add("atoms:CH->CF:M2:fraction-integer-0", pattern='CH->CF', N=4, M=2, fraction=0, cost=10)
     add("atoms:CH->CF:M0", pattern='CH->CF', N=3, M=0, cost=1)
     add("atoms:CH->NOO:M1:no-pair-tables", pattern='CH->NOO', N=4, M=1, s_pair=False, p_pair=False, cost=10)
     # end to end (real find, no stub) under a symbolic translation: counts, bystanders, inserted atoms in the matched frame
@@ -82,6 +85,8 @@ def check_atoms(ctx, p, R, positions_of_inserted=False):
     ctx.observe('replaced', Mp)
     ctx.require('reported match count equals the number of replaced matches', EQ(R['count'], Mp),
                 detail=dict(count=str(R['count']), replaced=Mp))
+    if R['calls']:
+        ctx.require("the caller's tolerance reaches the search unchanged", EQ(R['calls'][0].get('atol'), R['atol']), detail=dict(got=str(R['calls'][0].get('atol'))))
     f = R['f']
     if R['sampled']:
         ctx.require('replaced count is f*M rounded to a nearest integer', AND(2 * (Mp - f * M) <= 1, 2 * (f * M - Mp) <= 1),
